@@ -1151,10 +1151,15 @@ class TrackFileReader:
                 raise TrackSyntaxError(msg, e)
 
         # check the track version before even attempting to validate the JSON format to avoid bogus errors.
-        raw_version = track_spec.get("version", TrackFileReader.MAXIMUM_SUPPORTED_TRACK_VERSION)
+        # (a specification that is not even a JSON object has no version to check here; it is rejected by the schema validation below)
+        raw_version = (
+            track_spec.get("version", TrackFileReader.MAXIMUM_SUPPORTED_TRACK_VERSION)
+            if isinstance(track_spec, dict)
+            else TrackFileReader.MAXIMUM_SUPPORTED_TRACK_VERSION
+        )
         try:
             track_version = int(raw_version)
-        except ValueError:
+        except (TypeError, ValueError):
             raise exceptions.InvalidSyntax("version identifier for track %s must be numeric but was [%s]" % (track_name, str(raw_version)))
 
         if TrackFileReader.MINIMUM_SUPPORTED_TRACK_VERSION > track_version:
